@@ -74,6 +74,9 @@ pub struct MemInner {
     pub cold: bool,
     /// overwriting an existing id / removing a missing id is an error (like rustic_testing's backend)
     pub strict: bool,
+    /// (added for C17) `read_full` / `read_partial` of exactly these files fail with a backend error although the file is
+    /// stored and listed (transient read error / throttling); empty = no read faults
+    pub fail_reads_of: BTreeSet<(u8, Id)>,
 }
 
 type Gate = Arc<dyn Fn(usize, &LogOp) + Send + Sync>;
@@ -135,6 +138,15 @@ impl MemBackend {
     pub fn set_cold(&self, cold: bool) {
         self.inner.lock().unwrap().cold = cold;
     }
+    /// (added for C17) make every read of file `(tpe, id)` fail (`on = true`) or succeed again (`on = false`)
+    pub fn set_fail_reads_of(&self, tpe: FileType, id: Id, on: bool) {
+        let mut g = self.inner.lock().unwrap();
+        if on {
+            _ = g.fail_reads_of.insert((ft_idx(tpe), id));
+        } else {
+            _ = g.fail_reads_of.remove(&(ft_idx(tpe), id));
+        }
+    }
     pub fn ids(&self, tpe: FileType) -> Vec<Id> {
         let t = ft_idx(tpe);
         self.inner.lock().unwrap().map.keys().filter(|(x, _)| *x == t).map(|(_, id)| *id).collect()
@@ -194,6 +206,9 @@ impl ReadBackend for MemBackend {
     fn read_full(&self, tpe: FileType, id: &Id) -> RusticResult<Bytes> {
         let mut g = self.inner.lock().unwrap();
         g.reads.push((tpe, *id, false));
+        if g.fail_reads_of.contains(&(ft_idx(tpe), *id)) {
+            return Err(be_err("injected read failure"));
+        }
         if g.cold && tpe == FileType::Pack && !g.warm.contains(&(ft_idx(tpe), *id)) {
             return Err(be_err("cold file read without warm-up"));
         }
@@ -202,6 +217,9 @@ impl ReadBackend for MemBackend {
     fn read_partial(&self, tpe: FileType, id: &Id, _cacheable: bool, offset: u32, length: u32) -> RusticResult<Bytes> {
         let mut g = self.inner.lock().unwrap();
         g.reads.push((tpe, *id, true));
+        if g.fail_reads_of.contains(&(ft_idx(tpe), *id)) {
+            return Err(be_err("injected read failure"));
+        }
         if g.cold && tpe == FileType::Pack && !g.warm.contains(&(ft_idx(tpe), *id)) {
             return Err(be_err("cold file read without warm-up"));
         }
